@@ -723,7 +723,7 @@ Proof.
   change (w :: ws ++ ?l) with ((w :: ws) ++ l) in HW |- *.
   rewrite skip_spaces_st; [|exact HW|apply ws_spaces; exact Hws|cbn [app stops]; exact Hnsp].
   pose proof (W_app _ _ _ HW) as HW1. cbn [st s_pos].
-  match goal with |- context [ {| s_pos := ?a; s_end := tlen text; s_rest := ?r |} ] => fold (st a r) end.
+  try match goal with |- context [ {| s_pos := ?a; s_end := tlen text; s_rest := ?r |} ] => fold (st a r) end.
   cbn [app] in HW1 |- *.
   rewrite curr_byte_st by exact HW1. cbn [bind].
   rewrite Hn47, Hn62.
@@ -738,12 +738,12 @@ Proof.
   pose proof (W_cons _ _ _ HW3) as HW4.
   rewrite skip_spaces_st; [|exact HW4|apply ws_spaces; exact Hw2|cbn [stops]; exact Hqsp].
   pose proof (W_app _ _ _ HW4) as HW5. cbn [st s_pos].
-  match goal with |- context [ {| s_pos := ?a; s_end := tlen text; s_rest := ?r |} ] => fold (st a r) end.
+  try match goal with |- context [ {| s_pos := ?a; s_end := tlen text; s_rest := ?r |} ] => fold (st a r) end.
   unfold consume_quote. rewrite curr_byte_st by exact HW5. cbn [bind].
   rewrite Hqq.
   rewrite advance1_st by exact HW5. cbn [bind].
   pose proof (W_cons _ _ _ HW5) as HW6. cbn [st s_pos].
-  match goal with |- context [ {| s_pos := ?a; s_end := tlen text; s_rest := ?r |} ] => fold (st a r) end.
+  try match goal with |- context [ {| s_pos := ?a; s_end := tlen text; s_rest := ?r |} ] => fold (st a r) end.
   unfold advance_until2. rewrite avail_st by exact HW6.
   rewrite find_idx_run; [|exact Hv1|rewrite N.eqb_refl; reflexivity].
   rewrite advance_st by (try reflexivity; exact HW6). cbn [bind].
@@ -753,7 +753,7 @@ Proof.
   unfold is_xml_str. rewrite (W_slice _ _ _ HW6).
   rewrite Hv2. rewrite is_xml_str_ascii_ok by exact Hv3.
   cbn [bind].
-  match goal with |- context [ {| s_pos := ?a; s_end := tlen text; s_rest := ?r |} ] => fold (st a r) end.
+  try match goal with |- context [ {| s_pos := ?a; s_end := tlen text; s_rest := ?r |} ] => fold (st a r) end.
   rewrite consume_byte_st by exact HW7. cbn [bind]. cbn [st s_pos].
   reflexivity.
 Qed.
